@@ -1208,12 +1208,15 @@ void OutgoingIqManager::finish(const QString &id, IqResult &&result)
 
 void OutgoingIqManager::cancelAll()
 {
-    for (auto &[id, state] : m_requests) {
+    // Take the pending requests out of the table first: a completion handler may issue new
+    // requests, which must neither be dropped by a later clear() nor be inserted while iterating.
+    auto requests = std::move(m_requests);
+    m_requests.clear();
+    for (auto &[id, state] : requests) {
         state.interface.finish(QXmppError {
             u"IQ has been cancelled."_s,
             QXmpp::SendError::Disconnected });
     }
-    m_requests.clear();
 }
 
 void OutgoingIqManager::onSessionOpened(const SessionBegin &session)
